@@ -6,7 +6,9 @@
 //	    against the REAL reader router (e2e world: real writer routes -> fake ClickHouse -> store -> chsql -> real
 //	    reader routes) served by an httptest.Server, with a real gorilla websocket client. The child records one
 //	    totally ordered event trace (Start, Store, Version, Query, Frame, ClientClose, ClientDrop, ConnEOF,
-//	    HandlerDone, Census) that tools/props/x01.py validates against Trace_Tail.tla.
+//	    HandlerDone, NoEOF, Census) that tools/props/x01.py validates against Trace_Tail.tla. The database is chsql
+//	    behind ONE lock (a push is stored atomically; a statement is answered atomically); the bounds of every tail
+//	    statement are read from its SQL text; database faults are injected around the chsql handler.
 //	x01 child   (internal) scenario JSON on stdin, result JSON after the marker line on stdout
 package main
 
@@ -15,7 +17,6 @@ import (
 	"context"
 	"database/sql/driver"
 	"encoding/json"
-	"errors"
 	"flag"
 	"fmt"
 	"io"
@@ -58,11 +59,11 @@ type Step struct {
 
 type Scenario struct {
 	ID      string `json:"id"`
-	Req     string `json:"req"`      // ok | empty | noparse | noupgrade
-	Query   string `json:"query"`    // "" = stream selector of this scenario; else a LogQL pipeline appended to it
-	Fault   string `json:"fault"`    // none | version | query | row | scan
-	FaultAt int    `json:"fault_at"` // 1-based index of the data query that gets the fault
-	Cut     int    `json:"cut"`      // row/scan: number of rows handed over before the failure
+	Req     string `json:"req"`           // ok | empty | noparse | noupgrade
+	Query   string `json:"query"`         // "" = stream selector of this scenario; else a LogQL pipeline appended to it
+	Fault   string `json:"fault"`         // none | version | query | row | scan
+	FaultAt int    `json:"fault_at"`      // 1-based index of the data query that gets the fault
+	Cut     int    `json:"cut"`           // row/scan: number of rows handed over before the failure
 	Pre     []Line `json:"pre,omitempty"` // lines stored before the request is sent
 	Steps   []Step `json:"steps"`
 	GraceMs int    `json:"grace_ms"` // how long the census waits for the goroutines of the request to end
@@ -778,8 +779,6 @@ func run(casesPath, outPath string, par int, seed int64) int {
 	}
 	return 0
 }
-
-var _ = errors.New
 
 func main() {
 	if len(os.Args) < 2 {
